@@ -44,6 +44,7 @@ def enc_seg(s):
     if s[0] == "text": return [0] + S(s[1])
     if s[0] == "tag": return [1, s[1], s[2], s[3]]
     if s[0] == "raw": return [2, s[1], s[2]] + S(s[3]) + [s[4], s[5]]
+    if s[0] == "gtag": return [4, s[1], s[2], s[3]] + S(s[4])
     return [3, s[1]] + S(s[2]) + [s[3]]
 
 
@@ -67,6 +68,10 @@ def seg_src(d, s):
         k, l, r = s[1:]
         a, b = [(d[2], d[3]), (d[0], d[1]), (d[4], d[5])][k]
         return a + MK[l] + BODY[k] + MK[r] + b
+    if s[0] == "gtag":
+        k, l, r, body = s[1:]
+        a, b = [(d[2], d[3]), (d[0], d[1]), (d[4], d[5])][k]
+        return a + MK[l] + body + MK[r] + b
     if s[0] == "raw":
         _, l1, r1, c, l2, r2 = s
         return d[0] + MK[l1] + " raw " + MK[r1] + d[1] + c + d[0] + MK[l2] + " endraw " + MK[r2] + d[1]
@@ -127,10 +132,13 @@ def valid(d, segs):
                     if full.startswith(p, pos + i):
                         if pid == 3 and not line_start_simple(full, pos + i): continue   # mid-line statement prefix: text
                         return False
-        elif s[0] in ("tag", "raw"):
-            own = d[2] if (s[0] == "tag" and s[1] == 0) else d[0] if (s[0] == "raw" or s[1] == 1) else d[4]
+        elif s[0] in ("tag", "raw", "gtag"):
+            own = d[2] if (s[0] != "raw" and s[1] == 0) else d[0] if (s[0] == "raw" or s[1] == 1) else d[4]
             for p, pid in pats:
                 if len(p) > len(own) and full.startswith(p, pos): return False
+            if s[0] == "gtag":
+                # the interior must not contain the end delimiter of its own tag
+                if [d[3], d[1], d[5]][s[1]] in s[4]: return False
             if s[0] == "raw":
                 c = s[3]; bs = d[0]
                 close = bs + MK[s[4]] + " endraw " + MK[s[5]] + d[1]
@@ -193,7 +201,8 @@ def box3(with_lines=False):
             for a, b in zip(combo, combo[1:]):
                 if a[0] == "text" and b[0] == "text": ok = False
                 if a[0] == "line" and a[3] == 0: ok = False
-            if ok: yield list(combo)
+            # the empty text of the alphabet stands for "no text here"
+            if ok: yield [x for x in combo if x != ("text", "")]
     if not with_lines:
         for n in (1, 2, 3):
             yield from seqs([T + G] * n)
@@ -209,6 +218,44 @@ def box3(with_lines=False):
         for n in (1, 2, 3):
             for pos in range(n):
                 yield from seqs([L if i == pos else small + (L if i > pos else []) for i in range(n)])
+
+
+# ------------------------------------------------------------------------------------------------
+# a corpus of core-fragment programs whose tags are rewritten to every delimiter family (tag interiors avoid
+# every character that occurs in a delimiter of some family: no brackets, braces, percent, angle, hash, backslash)
+# ------------------------------------------------------------------------------------------------
+def V(body): return ("gtag", 0, None, None, " " + body + " ")
+def B(body): return ("gtag", 1, None, None, " " + body + " ")
+def C(body): return ("gtag", 2, None, None, " " + body + " ")
+def T(s): return ("text", s)
+CORPUS = [
+    [B("for x in range(3)"), T("\n  a"), V("x"), T("\n"), B("endfor"), T("\nend\n")],
+    [T("<ul>\r\n"), B("for c in 'abc'"), T("\r\n  <li>"), V("c|upper"), T("</li>\r\n"), B("endfor"), T("\r\n</ul>\r\n")],
+    [B("set n = 4"), T(" \n"), B("if n > 3"), T("big\n"), B("elif n == 3"), T("three"), B("else"), T("small"), B("endif"), T("\n")],
+    [B("macro m(a, b=2)"), T("("), V("a"), T(","), V("b"), T(")"), B("endmacro"), T("\n"), V("m(1)"), T(" "), V("m(1, 3)"), T("\n")],
+    [V("'a' ~ 'b' ~ 1"), T("\t"), V("(1 + 2) * 3"), T(" \n "), V("7 // 2"), T(" "), V("'x'|upper|lower")],
+    [B("for i in range(2)"), B("for j in range(2)"), V("loop.index"), T(":"), V("i * 2 + j"), T(" "), B("endfor"), T("\n"), B("endfor")],
+    [C("a comment with {{ x }} and {% y %} inside"), T("\n  "), V("'kept'"), T("\n"), C("another"), T("tail")],
+    [B("filter upper"), T("shout "), V("'me'"), T("\n"), B("endfilter"), T("\n  "), B("with q = 2"), V("q"), B("endwith")],
+    [B("set s"), T("  captured "), V("1 + 1"), T("  "), B("endset"), T("["), V("s|trim"), T("]\n")],
+    [T("a\n  "), B("if 1 is odd"), T("\n    odd\n  "), B("endif"), T("\n  "), B("if u is defined"), T("no"), B("else"), T("undefined"), B("endif"), T("\nz")],
+    [V("none"), T("|"), V("true and not false"), T("|"), V("1 if false else 2"), T("|"), V("'a' in 'cat'"), T("\r")],
+    [B("for k in 'ab'"), T("\r  "), V("loop.first"), T("\r"), B("if loop.last"), T("last\r"), B("endif"), B("endfor")],
+    [("raw", 0, 0, " {{ verbatim }} \n", 0, 0), T("\n"), V("'after raw'"), T("\n\n")],
+    [T("{{ not a tag }}{% nor this %}{# nor that #}\n"), V("'v'"), T(" } %} }} #} > >> ]\n")],
+]
+
+
+def corpus_case(rng, prog):
+    """the program with seeded markers on its tags"""
+    out = []
+    for s in prog:
+        if s[0] == "gtag":
+            l = rng.choice([0, 0, 0, 1, 2]); r = rng.choice([0, 0, 0, 1, 2])
+            out.append(("gtag", s[1], l, r, s[4]))
+        else:
+            out.append(s)
+    return out
 
 
 def rand_seq(rng, fam, nmin, nmax, rich=True):
@@ -229,6 +276,7 @@ def rand_seq(rng, fam, nmin, nmax, rich=True):
                 segs.append(rng.choice(LINES))
             else:
                 segs.append(("raw", rng.below(3), rng.below(3), rng.choice(rawc), rng.below(3), rng.below(3)))
+        segs = [x for x in segs if x != ("text", "")]
         if valid(d, segs):
             return segs
     return [("text", "a"), rng.choice(TAGS)]
@@ -283,14 +331,14 @@ def split_spec(o):
 def classify(meta, exp_out):
     """short label of the whitespace situation, for the histogram and for grouping violations"""
     fam, bits, segs = meta
-    kinds = "".join({"text": "T", "tag": "G", "raw": "R", "line": "L"}[s[0]] for s in segs)
+    kinds = "".join({"text": "T", "tag": "G", "gtag": "G", "raw": "R", "line": "L"}[s[0]] for s in segs)
     return kinds if len(kinds) <= 3 else "len%d" % len(kinds)
 
 
 def main():
     chk = Check("C10", "proof")
     chk.cov["trusted_base"] = TRUSTED_COMMON + [
-        "the Aho-Corasick automaton (crate aho-corasick) is specified, not modelled: matches are assumed to be reported by end position, longest first (Model.find_ac); tied to the crate only by the correspondence run over the delimiter families",
+        "the Aho-Corasick automaton (crate aho-corasick) is specified, not modelled: matches are assumed to be reported by end position, longest first (Model.find_ac); tied to the crate only by the correspondence run over the delimiter families. The loop of find_start_marker over that enumeration is modelled and proved to return the leftmost start delimiter (theorem start_marker_search)",
         "tag interiors are fixed ({{ 'V' }}, {% set q = 1 %}, {# c #}, raw/endraw, `# set q = 1`, `## c`); the parser and the VM beyond them are not modelled",
         "Print Assumptions of every theorem of Props/C10.v: closed under the global context"]
     chk.assumptions = [
@@ -331,12 +379,13 @@ def main():
             for segs in box:
                 for bits in range(8): yield ("default", bits, segs), "box3"
         else:
-            for _ in range(2500):
-                segs = rng.choice(box)
+            plain = [x for x in box if not any(y[0] == "raw" for y in x)]
+            for i in range(10000):
+                segs = rng.choice(plain if i % 2 == 0 else box)
                 for bits in range(8): yield ("default", bits, segs), "box3-sample"
         # the same box under the other families, next to the default family (texts of the core alphabet are family-neutral)
         others = [f for f in FAM if f != "default"]
-        for _ in range(60000 if chk.thorough else 1200):
+        for _ in range(60000 if chk.thorough else 4000):
             segs = rng.choice(box); fam = rng.choice(others)
             if valid(FAM[fam], segs):
                 for bits in ([rng.below(8), rng.below(8)] if chk.thorough else range(8)):
@@ -350,12 +399,12 @@ def main():
                     if valid(FAM[fam], segs):
                         for bits in range(8): yield (fam, bits, segs), "line-box3"
         else:
-            for _ in range(700):
+            for _ in range(2500):
                 segs = rng.choice(lbox); fam = rng.choice(LINE_FAMS)
                 if valid(FAM[fam], segs):
                     for bits in range(8): yield (fam, bits, segs), "line-sample"
         # long sequences, rich alphabets (Unicode blanks, look-alikes), every family; re-rendered under a second family when the texts allow it
-        for _ in range(300000 if chk.thorough else 9000):
+        for _ in range(300000 if chk.thorough else 30000):
             fam = rng.choice(list(FAM))
             segs = rand_seq(rng, fam, 2, 8)
             bits = rng.below(8)
@@ -365,8 +414,18 @@ def main():
                 yield (fam2, bits, segs), "families"
             else:
                 yield (fam, bits, segs), "long"
+        # the program corpus under every family in which its texts are valid (always including the default family
+        # unless a text looks like default delimiters)
+        for rep in range(40 if chk.thorough else 6):
+            for prog in CORPUS:
+                segs = corpus_case(rng, prog)
+                bits = rng.below(8)
+                fams = [f for f in FAM if f not in LINE_FAMS or True]
+                ok = [f for f in fams if valid(FAM[f], segs)]
+                if len(ok) > 1:
+                    for f in ok: yield (f, bits, segs), "corpus"
         # mode 1: arbitrary sources over delimiter material (token-stream correspondence, no panic)
-        for _ in range(150000 if chk.thorough else 5000):
+        for _ in range(150000 if chk.thorough else 15000):
             fam = rng.choice(list(FAM)); d = FAM[fam]
             pool = [x for x in d if x] + list(FAM["default"][:6]) + ["-", "+", " ", "\n", "\r\n", "\r", "a", "'V'", "raw", "endraw", " set q = 1 ", "  ", "x", "1", "(", ")", "'", "#"]
             src = "".join(rng.choice(pool) for _ in range(1 + rng.below(12)))
@@ -439,6 +498,11 @@ def main():
                                                       "source": m[3] if m[0] == "src" else None, "delimiters": m[1] if m[0] == "src" else None}))
                     if mod == [7]:
                         if prof == "debug": hist["model-out-of-scope(tag interior not modelled)"] += 1
+                    elif mod and mod[0] == 6:
+                        # program corpus: the rendering of arbitrary tag interiors is not modelled, the token stream is
+                        rl = (2 + out[1]) if out and out[0] == 0 else 2
+                        if out[rl:] != mod[1:] and len(corr_bad) < 20:
+                            corr_bad.append((m, c, prof, out, mod))
                     elif out != mod and len(corr_bad) < 20:
                         corr_bad.append((m, c, prof, out, mod))
                 if m[0] in ("src", "raw"):
@@ -462,11 +526,13 @@ def main():
                     if sm is None or sm[0] != se[0] or sm[1] != se[1]:
                         if len(theorem_bad) < 5: theorem_bad.append((m, c, mod, sp))
                 exp_r, exp_items = split_spec(sp)
+                is_corpus = (cl == "corpus")
                 naive = []
                 for s in segs:
                     if s[0] == "text": naive += [ord(x) for x in s[1]]
                     elif s[0] == "raw": naive += [ord(x) for x in s[3]]
                     elif s[0] == "tag" and s[1] == 0: naive.append(86)
+                    elif s[0] == "gtag" and s[1] == 0: naive.append(86)
                 look = isinstance(fam, str) and fam != "default" and any(("{{" in t or "{%" in t or "{#" in t) for t in
                                                                            [s[1] if s[0] == "text" else s[3] if s[0] == "raw" else "" for s in segs])
                 if exp_r[2:] != naive or look:
@@ -474,7 +540,7 @@ def main():
                     hist["rule-removed-characters" if exp_r[2:] != naive else "look-alike-text"] += 1
                 for prof, out in (("debug", dbg), ("release", rel)):
                     si = split_impl(out)
-                    good = si is not None and si[0] == exp_r and si[1] == exp_items
+                    good = si is not None and (si[0] == exp_r or (is_corpus and si[0][0] == 0)) and si[1] == exp_items
                     if not good:
                         feats = []
                         if any(x[0] == "raw" for x in segs): feats.append("raw")
@@ -490,7 +556,7 @@ def main():
                             viol[label] = (m, {"case": c, "describe": d, "profile": prof, "implementation": out,
                                                "expected_output_then_items": sp, "what": "rendered output / token view differs from the whitespace rules",
                                                "how": "./check C10 --replay <this file>"})
-                if cl == "families":
+                if cl in ("families", "corpus"):
                     key = (bits, tuple(segs))
                     o = outputs_by_segs.setdefault(key, {})
                     si = split_impl(dbg)
